@@ -30,6 +30,8 @@ def required_cells(tier):
             req["pair:%s in %s/%s" % (a, b, t)] = 20 if q else 500
     for loc in ("vertex", "edge", "face", "interior", "outside", "in-plane-outside", "off-plane"):
         req["loc:" + loc] = 50 if q else 1000
+    for w in ("container/receiver", "container/returned", "candidate/receiver", "candidate/returned"):
+        req["pose:via-move/" + w] = 100 if q else 2000
     return req
 
 
@@ -79,7 +81,17 @@ def cases(rng, budget, widx, nworkers, tier):
             label = "random"
         if not gen.ok_coords(x):
             continue
-        yield {"a": x, "b": s, "label": label, "ls": rng.getrandbits(30)}
+        case = {"a": x, "b": s, "label": label, "ls": rng.getrandbits(30)}
+        if rng.random() < 0.12:
+            # the same pose reached by constructing the object elsewhere and moving it there:
+            # `in` must not depend on how an operand got to its position
+            v = tuple(gen.F(rng.randint(-8, 8), rng.choice((1, 2, 4))) for _ in range(3))
+            if rng.random() < 0.3:
+                d = s[2] if s[0] in ("L", "H") else (K.sub(s[2], s[1]) if s[0] == "S" else None)
+                if d is not None:
+                    v = K.mul(d, rng.choice((1, -1, 2, gen.F(1, 2))))       # along the object's own direction
+            case["mv"] = {"v": v, "who": rng.choice(("container", "container", "candidate")), "use": rng.choice(("receiver", "returned"))}
+        yield case
 
 
 def judge(case):
@@ -96,9 +108,29 @@ def judge(case):
         p, d, lo, hi = K.one_d(s)
         if x[1] == p or (ks == "S" and x[1] == s[2]):
             mu.cell("loc:endpoint")
-    ox, os_ = C.lift_pair(case)
+    mv = case.get("mv")
+    if mv is None:
+        ox, os_ = C.lift_pair(case)
+    else:
+        from ..desc import translate, lift as _lift
+        import random as _r
+        G = load()
+        r = _r.Random(case.get("ls", 0))
+        back = K.mul(mv["v"], -1)
+        da, db = (x, translate(s, back)) if mv["who"] == "container" else (translate(x, back), s)
+        if not (gen.ok_coords(da, 64, 64) and gen.ok_coords(db, 64, 64)):
+            return core.not_admitted("moved-pose-out-of-range")
+        ox, os_ = _lift(da, r), _lift(db, r)
+        tgt = os_ if mv["who"] == "container" else ox
+        ret = tgt.move(G.Vector(*[float(c) for c in mv["v"]]))
+        if mv["use"] == "returned":
+            if mv["who"] == "container":
+                os_ = ret
+            else:
+                ox = ret
+        mu.cell("pose:via-move/%s/%s" % (mv["who"], mv["use"]))
     res, exc, impure = M.call(lambda p, q: p in q, ox, os_)
-    key = "%s in %s" % (kx, ks)
+    key = "%s-in-%s" % (kx, ks)
     if exc is not None:
         mu.fail("%s:raises-%s" % (key, M.classify_exc(exc)), "`x in S` raised %s: %s (exact containment %s)" % (type(exc).__name__, exc, exp))
     else:
